@@ -27,6 +27,8 @@ def specs_for(ctx):
         dict(D=2, target="sphere", box="sym", noise="det", cons="stripes", x0_value=[0.3, 0.3], options=dict(max_fun_evals=60, fun_eval_start=16), seed=sd + 10),
         dict(D=2, target="outside", box="sym", noise="det", cons="stripes", x0_value=[0.375, 0.375], options=dict(max_fun_evals=70, search_grid_number=4, fun_eval_start=32), seed=sd + 11),
         dict(D=2, target="outside", box="sym", noise="declared", sigma=0.2, cons="tinyhalf", options=dict(max_fun_evals=70, noise_final_samples=2), seed=sd + 8),
+        # an integer-typed start point
+        dict(D=2, target="outside", box="sym", noise="det", cons="ball", x0_value=[1, 0], x0_int=True, options=dict(max_fun_evals=60), seed=sd + 17),
         # budgets below the size of the initial design, and designs / candidate sets of a single row
         dict(D=3, target="outside", box="sym", noise="det", cons="ball", options=dict(max_fun_evals=4), seed=sd + 12),
         dict(D=2, target="outside", box="sym", noise="declared", sigma=0.2, cons="half", options=dict(max_fun_evals=25, noise_final_samples=2), seed=sd + 13),
